@@ -120,11 +120,10 @@ def make_tree(rnd):
 
 
 def status_of(exc, rt_err, p_err):
-    if isinstance(exc, p_err):
-        m = re.search(r'Included from "(.*)"', str(exc))
-        return ('parse', norm_url(m.group(1)) if m else str(exc))
-    m = re.search(r'Include of "(.*)" failed', str(exc))
-    return ('rt', norm_url(m.group(1)) if m else str(exc))
+    """Kind of the error and the location it names (first quoted text of the message; the wording is not pinned)."""
+    first_line = str(exc).split('\n')[0]
+    m = re.search(r'"([^"]*)"', first_line)
+    return ('parse' if isinstance(exc, p_err) else 'rt', norm_url(m.group(1)) if m else str(exc))
 
 
 def user(g, lib):
